@@ -42,6 +42,18 @@ because there the nearest pixel is a convention.  Here the convention is left fr
 passes a point if every oracle holds against the simulator with ties half-to-even everywhere, or with ties half-up everywhere
 (data, geometry and all oracles recomputed under that convention), and (5c) must hold in any case.
 
+"mode_orders" (24 points quick: the non-identity orders; 576 thorough: every order): 2 and 3 orthogonal ground-truth modes
+(intensities 1 : 1/4 : 1/9) installed through the public probe setter in every permutation.  The incoherent mode sum does not
+depend on the order, so all oracles apply unchanged; in addition, at every state of every family, the probe read back through
+the public property must carry the same (mode shape, intensity) pairs as what was installed (relation
+`probe_readback_keeps_shape_weight_pairs`).
+
+Reconfiguration histories (second part, see the section further down): on ONE Ptychography instance every history of up to
+2 (quick) / 3 (thorough) events from an 8-event alphabet (object model swaps with other thicknesses / another slice count,
+direct and Ptychography-level thickness assignment, probe model swap with another mode count and reversed order, loss-type
+switch, a forward pass, a zero-iteration reconstruct) is applied and mirrored in a small reference model; the final state is
+judged against the simulator evaluated at the final configuration: "the prediction depends on the current configuration only".
+
 Stated limit. `com_fit_function="constant"` shifts every pattern by the data-dependent mean centre of mass
 with sinc interpolation; "zero to numerical precision" is only defined when that is an integer pixel.  It
 is provably the detector centre for vacuum data of a centro-symmetric aperture that stays below Nyquist, so
@@ -75,7 +87,9 @@ CLAIM = (
     "batch size at a perturbed state; the l2 gradients at the ground truth are "
     "<= 1e-3 of those at the perturbed states; and the library's object shape, padding, pixel positions and patch indices "
     "equal independently computed ones, are not moved by a forward pass, and patch origin + fractional probe shift = position "
-    "for every pattern. Exploration is the right level: the property quantifies over configurations and "
+    "for every pattern. Probe modes installed in every order give the same predictions and are read back with each shape attached "
+    "to its own weight. On one instance, after every history of up to 2 (quick) / 3 (thorough) reconfiguration events, the "
+    "prediction equals the simulator at the final configuration (no stale propagators, probes or targets). Exploration is the right level: the property quantifies over configurations and "
     "batch schedules, which are enumerated completely; array contents are seeded alphabet members."
 )
 NOTE = (
@@ -89,7 +103,9 @@ RULE = (
     "perturbed states on the full batch. Exact half-pixel positions are enumerated only in the half_pixel_ties family, where a "
     "point passes under half-to-even or half-up ties applied consistently. Points whose independently "
     "computed object grid has a zero-length axis are excluded and counted. A point is non-trivial when it is not excluded; "
-    "distinct outcomes are distinct (object shape, adjusted padding, J, wrap-around, fractional) geometry signatures."
+    "distinct outcomes are distinct (object shape, adjusted padding, J, wrap-around, fractional) geometry signatures. "
+    "Reconfiguration part: every sequence of length 0..d over the 8-event alphabet on each base configuration, one fresh "
+    "instance per sequence, reference model stepped alongside, final state judged; outcomes are distinct final configurations."
 )
 
 # ----------------------------------------------------------------------------- tolerances
@@ -109,6 +125,7 @@ TOL = {
               "l1": 1e3},    # l1 losses grow with the first power of the residual and sit on the float32 rounding floor:
                              # smallest observed 1.4e5 (a 1e4 bound would leave a margin of only 14x) | mutants: <= 27
     "batch_sum_rel": 1e-4,   # |sum_k (n_k/J) L_k - L_full| / L_full: 4.1e-7 observed | batch-count mutant >= 0.96
+    "readback": 1e-3,        # probe read back vs installed: 1-|overlap| and relative intensity per mode: 2e-6 observed | mode/weight mix-up >= 0.5
     "stationary": 1e-3,      # |grad(truth)| / min |grad(perturbed)|: 2.8e-5 observed | mutants that move the truth: >= 1e-2
 }
 
@@ -133,6 +150,10 @@ TIE_SAMPLING = (2.0, 1.0)
 TIE_STEPS = [(0.5, 1.5), (1.5, 2.5), (2.5, 0.5)]
 TIE_SCANS = [(4, 2), (2, 4)]
 TIE_PADS = [(3, 5), (1, 1)]
+# "mode_orders" family: the ground-truth modes (orthogonal, intensities 1 : 1/4 : 1/9) are installed through the public
+# probe setter in EVERY order; the incoherent sum does not depend on the order, so every oracle applies unchanged, and the
+# probe read back through the public property must carry the same (mode shape, intensity) pairs as what was installed.
+MODE_ORDERS = [list(p) for M in (2, 3) for p in itertools.permutations(range(M))]
 
 
 def lattice(tier):
@@ -142,13 +163,16 @@ def lattice(tier):
         const = dict(obj_type=OBJ_TYPES, slices=[1, 2], modes=[1, 2], roi=ROIS[:2], scan=[SCANS[1]], step=["fractional"], pad=[PADS[1]])
         edge = dict(obj_type=OBJ_TYPES, slices=[1], modes=[1], roi=ROIS[:1], scan=[(3, 3)], step=EDGE_STEPS, pad=[PADS[0]])
         ties = dict(obj_type=OBJ_TYPES[:1], slices=[1, 2], modes=[1, 2], roi=ROIS[:2], scan=TIE_SCANS, step=TIE_STEPS, pad=TIE_PADS[:1], sampling=[TIE_SAMPLING])
+        # quick: the non-identity orders only (the identity orders are what every other family installs)
+        orders = dict(obj_type=OBJ_TYPES[:1], slices=[1, 2], mode_order=[p for p in MODE_ORDERS if p != sorted(p)], roi=ROIS[:2], scan=[SCANS[0]], step=STEPS[1:], pad=PADS[1:2])
     else:
         main = dict(obj_type=OBJ_TYPES, slices=[1, 2, 3, 4], modes=[1, 2, 3], roi=ROIS, scan=SCANS, step=STEPS, pad=PADS)
         const = dict(obj_type=OBJ_TYPES, slices=[1, 2], modes=[1, 2], roi=ROIS, scan=[SCANS[0], SCANS[1], SCANS[3]], step=STEPS, pad=PADS[:2])
         edge = dict(obj_type=OBJ_TYPES, slices=[1, 2], modes=[1, 2], roi=ROIS[:2], scan=[(3, 3)], step=EDGE_STEPS, pad=[PADS[0]])
         ties = dict(obj_type=OBJ_TYPES, slices=[1, 2], modes=[1, 2], roi=ROIS, scan=TIE_SCANS, step=TIE_STEPS, pad=TIE_PADS, sampling=[TIE_SAMPLING])
+        orders = dict(obj_type=OBJ_TYPES, slices=[1, 2, 3], mode_order=MODE_ORDERS, roi=ROIS[:2], scan=SCANS[:2], step=STEPS, pad=PADS[1:2])
     fams = [("main", "no_shift", "random", main), ("constant_descan_vacuum", "constant", "vacuum", const), ("unpadded_edge", "no_shift", "random", edge),
-            ("half_pixel_ties", "no_shift", "random", ties)]
+            ("half_pixel_ties", "no_shift", "random", ties), ("mode_orders", "no_shift", "random", orders)]
     items = []
     alph = {}
     for fam, descan, content, a in fams:
@@ -159,12 +183,37 @@ def lattice(tier):
             cfg = {k: (list(v) if isinstance(v, tuple) else v) for k, v in zip(keys, combo)}
             cfg["descan"] = descan
             cfg["content"] = content
+            if "mode_order" in cfg:
+                cfg["modes"] = len(cfg["mode_order"])
             items.append({"index": len(items), "family": fam, "cfg": cfg})
     return items, alph
 
 
 # states at which EVERY batch partition is forwarded (the other perturbed states are evaluated on the full batch)
 PARTITIONED_STATES = ("truth", "noise")
+
+
+def readback_mismatch(installed, readback):
+    """None if the probe read back through the public property carries the same multiset of (mode shape, intensity) pairs
+    as the installed orthogonal modes (any order), else a description."""
+    if readback.shape != installed.shape:
+        return f"read-back probe shape {readback.shape} != installed {installed.shape}"
+    wi = (np.abs(installed) ** 2).sum((1, 2))
+    wr = (np.abs(readback) ** 2).sum((1, 2))
+    if not (wr > 0).all():
+        return f"read-back mode intensities {wr.tolist()}"
+    ui = installed / np.sqrt(wi)[:, None, None]
+    ur = readback / np.sqrt(wr)[:, None, None]
+    ov = np.abs(np.einsum("kij,mij->km", ur, ui.conj()))  # |<read-back k | installed m>|
+    match = ov.argmax(1)
+    if sorted(match.tolist()) != list(range(len(wi))) or (1 - ov[np.arange(len(match)), match]).max() > TOL["readback"]:
+        return f"read-back mode shapes are not a permutation of the installed ones: |overlap| matrix (read-back x installed) {np.round(ov, 4).tolist()}"
+    rel = np.abs(wr / wi[match] - 1)
+    if rel.max() > TOL["readback"]:
+        k = int(rel.argmax())
+        return (f"read-back mode {k} has the shape of installed mode {int(match[k])} but intensity {wr[k]:.6g} instead of {wi[match[k]]:.6g} "
+                f"(installed intensities {wi.tolist()}, read back {wr.tolist()}, shape assignment {match.tolist()})")
+    return None
 
 
 def perturbations(cfg):
@@ -316,7 +365,10 @@ def evaluate(item, seed=0, tie=None):
             if want_obj != installed_obj:
                 pr.set_object(o)
                 installed_obj = want_obj
-            pr.set_probe(p)
+            pr.set_probe(pr.install_order(p))
+            msg = readback_mismatch(pr.install_order(p), pr.probe_readback())
+            if msg:
+                fail({"relation": "probe_readback_keeps_shape_weight_pairs"}, f"state {name}, modes installed in order {c.get('mode_order') or list(range(c['modes']))}: {msg}")
             if sim is None:
                 sim = PT.simulate(o, p, geo, c)
             scale = float(sim.max())
@@ -446,6 +498,8 @@ def check_point(item, seed=0):
     t.extra["points_nonsquare_roi"] += int(item["cfg"]["roi"][0] != item["cfg"]["roi"][1])
     t.extra["points_constant_descan"] += int(item["cfg"]["descan"] == "constant")
     t.extra["points_with_a_position_beyond_the_last_object_pixel"] += int(rec["on_edge"])
+    mo = item["cfg"].get("mode_order")
+    t.extra["points_modes_not_installed_strongest_first"] += int(mo is not None and mo != sorted(mo))
     if item["family"] == "half_pixel_ties":
         t.extra["tie_points_exact_in_library_arithmetic"] += int(bool(rec.get("tie_exact_in_library")))
         t.extra["tie_points_skipped_library_positions_inexact"] += int(bool(rec.get("skipped")))
@@ -457,6 +511,197 @@ def check_point(item, seed=0):
     if (item["index"] % 97 == 0 or item["family"] != "main" and item["index"] % 7 == 0) and "worst" in rec:
         t.sample({"cfg": item["cfg"], "obj_shape": rec["obj_shape_expected"], "patterns": rec["J"], "batches": rec["batches"],
                   "max_rel_pred_error": rec["worst"]["pred_rel"], "loss_truth": rec["L_truth"], "min_loss_ratio": rec["worst"]["ratio"]})
+    return t
+
+
+# ============================================================================= reconfiguration histories
+# "The prediction depends on the CURRENT configuration only."  One Problem / Ptychography instance per history: it is built
+# with configuration A (thicknesses A) on data that the independent simulator produced for configuration F (same object and
+# probe, thicknesses B).  Every history of reconfiguration events up to the stated length is applied; a tiny reference model
+# (slice count, thicknesses, object, probe modes, loss type) follows each event.  The FINAL state is then judged the way
+# reconstruct() enters its loop (reconstruct(num_iters=0, loss_type) first, then the public forward chain):
+#   (H1) predicted == simulator evaluated at the reference model's final configuration (whatever it is);
+#   (H2) if the final configuration is F, all four losses are ~0 against the data, and
+#   (H3) the seeded-noise object perturbation raises every loss by the usual factor.
+# Events that are not applicable in the current state (direct thickness assignment while another slice count is installed)
+# are skipped in both library and model and counted.
+HISTORY_EVENTS = (
+    "object_thicknesses_B_via_model_swap",     # fresh object model, same slice count, thicknesses B: ptycho.obj_model = ..; preprocess
+    "thicknesses_B_on_object_model",           # ptycho.obj_model.slice_thicknesses = B
+    "thicknesses_B_via_ptychography_setter",   # ptycho.slice_thicknesses = B
+    "object_with_other_slice_count",           # fresh object model with S1 slices (thicknesses C): model swap + preprocess
+    "probe_model_with_other_mode_count",       # fresh probe model, M <-> M1 modes, installed in reversed order
+    "switch_loss_type",                        # reconstruct(num_iters=0, loss_type=next)
+    "forward_pass_on_a_batch",                 # one forward + loss on the first half of the patterns
+    "reconstruct_zero_iterations",             # reconstruct(num_iters=0)
+)
+HISTORY_BASES = [
+    dict(obj_type="complex", slices=2, modes=1, roi=[8, 10], scan=[2, 2], step="fractional", pad=[3, 5]),
+    dict(obj_type="potential", slices=3, modes=2, roi=[8, 8], scan=[2, 3], step="fractional", pad=[3, 5]),
+    dict(obj_type="pure_phase", slices=2, modes=2, roi=[10, 8], scan=[2, 2], step="commensurate", pad=[3, 5]),
+]
+
+
+def history_setup(base):
+    """Thickness sets A (build), B (data), C (other slice count) and the other slice / mode counts of a base configuration."""
+    S0 = base["slices"]
+    S1 = 3 if S0 == 2 else 2
+    A = [60.0 + 30.0 * s for s in range(S0 - 1)]
+    B = [35.0 + 95.0 * s for s in range(S0 - 1)]
+    C = [80.0 + 45.0 * s for s in range(S1 - 1)]
+    M0 = base["modes"]
+    M1 = 2 if M0 == 1 else 1
+    return S0, S1, A, B, C, M0, M1
+
+
+def history_items(tier):
+    depth = 2 if tier == "quick" else 3
+    bases = HISTORY_BASES[:2] if tier == "quick" else HISTORY_BASES
+    items = []
+    for b, base in enumerate(bases):
+        for n in range(depth + 1):
+            for h in itertools.product(range(len(HISTORY_EVENTS)), repeat=n):
+                items.append({"index": len(items), "base": b, "history": [HISTORY_EVENTS[e] for e in h]})
+    return items, depth, len(bases)
+
+
+def run_history(item, seed=0):
+    """Apply one history on one instance and judge the final state. Returns (record, fails)."""
+    import torch
+
+    base = dict(HISTORY_BASES[item["base"]])
+    S0, S1, A, B, C, M0, M1 = history_setup(base)
+    hist = item["history"]
+    fails, seen = [], set()
+
+    def fail(what, msg):
+        cls = {"relation": "prediction_depends_on_current_configuration_only", "what": what}
+        k = json.dumps(cls, sort_keys=True)
+        if k not in seen:
+            seen.add(k)
+            fails.append((cls, msg))
+
+    cfgA = dict(base, thicknesses=A)
+    c = PT.normalise(cfgA)
+    geo = PT.geometry(c)
+    J = geo.num_patterns
+    # ground truth of every configuration the events can reach (independent of the library)
+    rng = np.random.default_rng([int(seed), 2, 900 + item["base"], 0])
+    obj = {S0: PT.make_object(c, geo, np.random.default_rng([int(seed), 2, 900 + item["base"], 1])),
+           S1: PT.make_object(PT.normalise(dict(base, slices=S1, thicknesses=C)), geo, np.random.default_rng([int(seed), 2, 900 + item["base"], 2]))}
+    probes = {M: PT.make_probe(PT.normalise(dict(base, modes=M, thicknesses=A)), geo) for M in (M0, M1)}
+    cfgF = PT.normalise(dict(base, thicknesses=B))
+    data = PT.simulate(obj[S0], probes[M0], geo, cfgF)
+    model = {"S": S0, "T": list(A), "M": M0, "loss": 0}  # reference model of the configuration
+    trail = [dict(model)]
+    rec = {"index": item["index"], "base": item["base"], "history": hist, "skipped_events": 0}
+    half = np.arange(max(1, J // 2))
+    stage = "build"
+    try:
+        pr = PT.build(cfgA, rng, obj_init=obj[S0], probe_init=probes[M0], sim=data)
+        for n, ev in enumerate(hist):
+            stage = f"event {n} {ev}"
+            if ev == "object_thicknesses_B_via_model_swap":
+                pr.set_object(obj[S0], thicknesses=B)
+                model.update(S=S0, T=list(B))
+            elif ev in ("thicknesses_B_on_object_model", "thicknesses_B_via_ptychography_setter"):
+                if model["S"] != S0:  # B has S0-1 entries: not applicable while another slice count is installed
+                    rec["skipped_events"] += 1
+                    continue
+                if ev == "thicknesses_B_on_object_model":
+                    pr.ptycho.obj_model.slice_thicknesses = list(B)
+                else:
+                    pr.ptycho.slice_thicknesses = list(B)
+                model.update(T=list(B))
+            elif ev == "object_with_other_slice_count":
+                pr.set_object(obj[S1], thicknesses=C)
+                model.update(S=S1, T=list(C))
+            elif ev == "probe_model_with_other_mode_count":
+                M = M1 if model["M"] == M0 else M0
+                pr.set_probe_model(probes[M][::-1])
+                model.update(M=M)
+            elif ev == "switch_loss_type":
+                model["loss"] = (model["loss"] + 1) % len(PT.LOSS_TYPES)
+                pr.set_loss_type(PT.LOSS_TYPES[model["loss"]])
+            elif ev == "forward_pass_on_a_batch":
+                with torch.no_grad():
+                    pr.loss(pr.predict(half), half, PT.LOSS_TYPES[model["loss"]])
+            elif ev == "reconstruct_zero_iterations":
+                pr.ptycho.reconstruct(num_iters=0)
+            else:
+                raise ValueError(ev)
+            trail.append(dict(model))
+        # ------------------------------------------------------------------ judge the final state
+        stage = "judge"
+        cfg_now = PT.normalise(dict(base, slices=model["S"], modes=model["M"], thicknesses=model["T"]))
+        sim_now = PT.simulate(obj[model["S"]], probes[model["M"]], geo, cfg_now)
+        is_F = model["S"] == S0 and model["T"] == list(B) and model["M"] == M0
+        rec.update(final=dict(model), final_is_data_configuration=is_F)
+        full = np.arange(J)
+        mean_I = float(data.sum() / J)
+        preds = None
+        for lt in PT.LOSS_TYPES:
+            pr.set_loss_type(lt)  # reconstruct(num_iters=0, loss_type=lt): what every reconstruct() call does first
+            if preds is None:
+                with torch.no_grad():
+                    preds = [(idx, pr.predict(idx)) for idx in (full, half, np.arange(len(half), J))[: 3 if len(half) < J else 1]]
+                for idx, pred in preds:
+                    pn = pred.detach().cpu().numpy().astype(float)
+                    d = float(np.abs(pn - sim_now[idx]).max() / sim_now.max()) if pn.shape == sim_now[idx].shape and np.isfinite(pn).all() else float("inf")
+                    rec["pred_rel"] = max(rec.get("pred_rel", 0.0), d)
+                    if not d <= TOL["pred_rel"]:
+                        # which earlier configuration does the prediction belong to?
+                        stale = []
+                        for k, m in enumerate(trail[:-1]):
+                            if m["S"] == model["S"] and m["M"] == model["M"] and m["T"] != model["T"]:
+                                sk = PT.simulate(obj[m["S"]], probes[m["M"]], geo, PT.normalise(dict(base, slices=m["S"], modes=m["M"], thicknesses=m["T"])))
+                                if np.abs(pn - sk[idx]).max() / sk.max() <= TOL["pred_rel"]:
+                                    stale.append(f"it equals the simulator for the configuration before event {k} (thicknesses {m['T']})")
+                                    break
+                        fail("predicted_equals_simulated",
+                             f"after {hist} the configuration is {model['S']} slices, thicknesses {model['T']}, {model['M']} mode(s); patterns {idx.tolist()}: "
+                             f"max |predicted - simulated(final configuration)| / max = {d:.3g} > {TOL['pred_rel']:g}" + ("; " + stale[0] if stale else ""))
+            if is_F:
+                L = float(pr.loss(preds[0][1], full, lt))
+                z = L / PT.ref_loss(np.zeros_like(data), data, lt, J, mean_I)
+                rec.setdefault("zero", {})[lt] = z
+                rec.setdefault("L", {})[lt] = L
+                if not z <= TOL["zero"][lt]:
+                    fail("loss_zero_at_truth", f"after {hist} the configuration is the one the data were simulated with, but {lt} = {L:.4g} = {z:.3g} x the loss of an all-zero prediction")
+        if is_F:
+            stage = "judge:perturbed"
+            pr.set_object(PT.perturb_object(obj[S0], cfgF, geo, "noise", np.random.default_rng([int(seed), 2, 900 + item["base"], 3])), thicknesses=model["T"])
+            for lt in PT.LOSS_TYPES:
+                pr.set_loss_type(lt)
+                with torch.no_grad():
+                    Lp = float(pr.loss(pr.predict(full), full, lt))
+                ratio = Lp / max(rec["L"][lt], 1e-30)
+                rec.setdefault("ratio", {})[lt] = ratio
+                if not ratio >= TOL["ratio"][lt[:2]]:
+                    fail("loss_larger_when_perturbed", f"after {hist}: {lt} at the noise-perturbed object = {Lp:.4g}, at the ground truth {rec['L'][lt]:.4g}: ratio {ratio:.3g} < {TOL['ratio'][lt[:2]]:g}")
+    except Exception as e:
+        tb = traceback.format_exc().strip().splitlines()
+        src = [ln.strip() for ln in tb if "/quantem/" in ln]
+        if not src:
+            raise
+        fail("event_raises", f"history {hist}, {stage}: {type(e).__name__}: {str(e)[:200]} @ {src[-1][-160:]}")
+    return rec, fails
+
+
+def check_history(item, seed=0):
+    t = Tally()
+    rec, fails = run_history(item, seed=seed)
+    fin = rec.get("final", {})
+    t.case(key=[item["base"], item["history"]], nontrivial=True, outcome=(item["base"], fin.get("S"), fin.get("T"), fin.get("M"), fin.get("loss")))
+    t.extra["histories"] += 1
+    t.extra["history_events_applied"] += len(item["history"]) - rec["skipped_events"]
+    t.extra["history_events_not_applicable"] += rec["skipped_events"]
+    t.extra["histories_ending_in_the_data_configuration"] += int(bool(rec.get("final_is_data_configuration")))
+    for cls, msg in fails:
+        t.fail(cls, {"index": item["index"], "family": "reconfiguration_history", "base": item["base"], "history": item["history"]},
+               f"base {json.dumps(HISTORY_BASES[item['base']], sort_keys=True)} :: {msg}")
+    if item["index"] % 53 == 0 and item["history"]:
+        t.sample({"base": HISTORY_BASES[item["base"]], "history": item["history"], "final": fin, "max_rel_pred_error": rec.get("pred_rel"), "loss_zero_ratio": rec.get("zero")})
     return t
 
 
@@ -504,18 +749,38 @@ def run(ctx):
         tolerances=TOL,
         exhaustive=True,
     )
+    hitems, hdepth, nbases = history_items(ctx.tier)
+    hm = ctx.pmap(check_history, hitems, chunk=4, label="reconfiguration histories", seed=ctx.seed)
+    ctx.coverage.update(
+        evaluations=int(merged.n) - excluded + int(hm.n),
+        distinct_nontrivial=nontrivial + len(hm.nontrivial),
+        reconfiguration_histories={"events": list(HISTORY_EVENTS), "max_length": hdepth, "base_configurations": HISTORY_BASES[:nbases],
+                                   "histories": int(hm.extra["histories"]), "distinct_final_configurations": len(hm.outcomes),
+                                   "ending_in_the_data_configuration": int(hm.extra["histories_ending_in_the_data_configuration"])},
+    )
+    if hm.extra["histories_ending_in_the_data_configuration"] < 10 or len(hm.outcomes) < 8:
+        raise Broken("vacuous history exploration")
     if excluded != ndeg:
         raise Broken(f"excluded count {excluded} != structurally degenerate points {ndeg}")
     if nontrivial < 0.7 * len(items):
         raise Broken(f"only {nontrivial} of {len(items)} lattice points are non-degenerate")
     for k in ("points_with_wraparound_patches", "points_where_round_differs_from_floor", "points_nonsquare_roi", "points_constant_descan",
               "points_with_a_position_beyond_the_last_object_pixel", "tie_points_exact_in_library_arithmetic",
-              "tie_coordinates_even_integer_part", "tie_coordinates_odd_integer_part"):
+              "tie_coordinates_even_integer_part", "tie_coordinates_odd_integer_part", "points_modes_not_installed_strongest_first"):
         if merged.extra[k] == 0:
             raise Broken(f"vacuous lattice: {k} = 0")
 
 
 def replay(ctx, case):
+    if case.get("family") == "reconfiguration_history":
+        rec, fails = run_history({"index": case["index"], "base": case["base"], "history": case["history"]}, seed=ctx.seed)
+        print("  base:", json.dumps(HISTORY_BASES[case["base"]], sort_keys=True))
+        for k in ("history", "final", "final_is_data_configuration", "skipped_events", "pred_rel", "zero", "ratio"):
+            if k in rec:
+                print(f"  {k}: {rec[k]}")
+        for cls, msg in fails:
+            ctx.fail(cls, case, msg)
+        return
     item = {"index": case["index"], "family": case.get("family", "?"), "cfg": case["cfg"]}
     rec, fails = judge(item, seed=ctx.seed)
     print("  point:", json.dumps(case["cfg"], sort_keys=True))
